@@ -14,6 +14,7 @@ import calc_ops as CO
 from calc_ops import rtok, dy_tokens, is_dy, ser_tokens, ser_start, prd_tokens, prd_start, lim_tokens
 from calc_ops import poly_tokens, lin_tokens
 from math import factorial, comb
+import calc_cplx as CX
 
 LEVEL = "translation_validation"
 LEAN_MODULES = ["MpProofs.CalcRef", "MpProofs.CalcSer", "MpProofs.CalcLogicA", "Props.C27", "Props.C27sumem"]
@@ -42,6 +43,28 @@ ASSUMPTIONS = [
     "the quantifier over series/ranges/precisions is sampled; the oracle (closed form + enclosure + comparison) is proved",
     "mp.richardson is compared with the exact rational model of its code (lean/MpModel/CalcLogicA.lean) within "
     "2^(12-p) * maxc * (N+1) * max|seq| (rounding of the weights), on exactly representable sequences",
+    "complex-valued classes (harness/calc_cplx.py; summands 1/((k+c)(k+c+1)[(k+c+2)]), w r^k, (w0 + w1 k) r^k, "
+    "(-1)^k (1/(k+c) + 1/(k+c+1)) with Gaussian-rational c, w, r, 1/4 <= |r| <= 3/4; products 1 - 1/(k+c)^2, 1 + 1/((k+c)(k+c+2)), "
+    "(k+c)/(k+e); Moebius sequences and difference quotients of Gaussian polynomials): the reference is the exact Gaussian-rational "
+    "value U(a) of the telescoped form term(k) = U(k) - U(k+1), U -> 0 (finite ranges: U(a) - U(b+1)), and "
+    "|y - S| <= 2^(10-p) |S| (complex modulus) is decided in exact rational arithmetic in Python, not in Lean; the mpmath summand is "
+    "cross-checked against U(k) - U(k+1) at 300 bits; admission of a case (conditioning sum|t| <= 2^6 |S|, 2^-8 <= |S| <= 2^8) uses floats",
+    "methods on the complex classes follow the table of the real ones (power-law: richardson, levin, euler-maclaurin; geometric with "
+    "non-real ratio: shanks, levin, sidi, direct for |r| <= 1/2; alternating: shanks, levin, sidi, alternating, richardson); levin_variant "
+    "u / t / v / all (t not on power-law decay); no term of a series is zero (documented requirement of the Levin-type transforms)",
+    "sumap: the summand f(z + a) is analytic in Re z >= 0 with poles at distance >= 1/4 from the imaginary axis and inside the cone "
+    "|Im c| <= 2 (Re c + a) (outside it the tanh-sinh quadrature of the second integral does not resolve the near-pole on the imaginary "
+    "axis: observed loss 10..190 bits, counted as a limitation of quad, C26); geometric-type summands only with `integral=` (docstring), "
+    "the closed form of the integral evaluated with 30 guard bits",
+    "doubly infinite nsum / nprod whose lower half runs over DESCENDING indices j < a1: 'regular' = every denominator has real part "
+    "<= -1/4 on the range; the class with a denominator changing sign inside the range (pre-asymptotic bump) is run too, with its label in the input",
+    "direct use of the classes: levin (levin / sidi, variants u, t, v; update, update_psum, step, step_psum, incremental update) on series "
+    "on which the transform is exact (geometric series; 1/((k+c)(k+c+1)) for u, v), N <= 12 terms at working precision P, judged at "
+    "2^(10+3N-P) (the recursion cancels ~2.3 bits per term; the docstring asks for 'very high working precision'); the degenerate points "
+    "w_0 = w_1 of the u variant (ratio 1/2; c + a = 2) are excluded; shanks on A + a q^k (+ b s^k), judged on the column that is exact on "
+    "the ansatz at 2^(14-P) (one transient) / 2^(24-P) (two, ratios >= 1/4 apart); cohen_alt on w (-q)^k, Re q >= 0, against the exact "
+    "Cohen-Villegas-Zagier approximant w (d_n - T_n(1-2q)) / (d_n (1+q)) at 2^(14-P), and against the sum at 2^(10-P) once the exact "
+    "approximation error is below 2^(-P-4); mp.richardson on complex sequences: see case_cx_richardson (the decimation rule compares z/|z|)",
 ]
 
 PRECS = [30, 53, 53, 64, 100, 150, 200, 300]
@@ -654,6 +677,9 @@ def run(ctx):
     # the additional sumem classes draw from their own generator stream so that the older streams are unchanged
     r2 = random.Random(ctx.seed * 7919 + 27)
     cases += [case_sumem_poly(r2, st, quick) for _ in range(n5)] + [case_sumem_lin(r2, st, quick) for _ in range(n6)]
+    # complex-valued summand classes for every routine, and the extrapolation classes used directly (harness/calc_cplx.py): own stream
+    r3 = random.Random(ctx.seed * 104729 + 2713)
+    cases += CX.gen_cases(r3, st, quick)
     info, fails = CO.run_cases(cases, ctx, nworkers=6, default_timeout=20.0, budget_s=90 if quick else 3600)
     s = info["summary"]
     evaluations = sum(1 for c in cases if c.get("verdict") in ("ok", "violates", "undecided"))
@@ -663,13 +689,17 @@ def run(ctx):
     cov = {
         "evaluations": evaluations,
         "distinct_nontrivial": info["distinct_nontrivial"],
-        "programs": 7,     # nsum, nprod, limit, sumem (p-series tails, finite polynomial ranges, tails with vanishing first correction), sumap, richardson (T1), standardize
+        "programs": 10,    # nsum, nprod, limit, sumem (p-series tails, finite polynomial ranges, tails with vanishing first correction), sumap, richardson (T1), standardize, shanks, levin, cohen_alt
         "disagreements_checked": evaluations,
         "rule": "series/product/limit drawn from the proved families with rational parameters; index range shape, shift, method (restricted "
                 "to the documented applicability) and precision drawn independently; non-trivial = the real routine returned a finite real "
-                "value that the Lean checker decided against the proved closed form; every summand transcription is cross-checked exactly",
+                "value that the Lean checker decided against the proved closed form; every summand transcription is cross-checked exactly; "
+                "complex-valued classes and the direct use of shanks / levin / cohen_alt: harness/calc_cplx.py (exact Gaussian-rational oracle)",
         "cases": s, "undecided": s.get("undecided", 0),
         "input_distribution": st.as_dict(),
         "samples": info["samples"][:4],
     }
     return {"coverage": cov, "failing_inputs": fails, "disagreements": dis}
+
+
+import calc_findings3  # noqa: E402,F401  registers the known-finding predicates of the complex-valued / doubly infinite classes
